@@ -56,9 +56,11 @@ func (e *Exec) monitorInterference(st *State, lock Val) {
 		return
 	}
 	first := !st.everHeld[lock.T[0]]
+	st.quiet++
 	for _, f := range e.guardedFields(sub.Owner, sub.Path) {
 		e.havocField(st, ov, f, first)
 	}
+	st.quiet--
 	st.everHeld[lock.T[0]] = true
 	e.assumeInvariants(st, sub.Owner, sub.Path, ov, t)
 }
@@ -328,6 +330,7 @@ func (e *Exec) nopanicAlways(st *State, what string, in ssa.Instruction, goal st
 }
 
 func (e *Exec) chanSend(st *State, x *ssa.Send) {
+	e.interfere(st)
 	ch := e.val(st, x.Chan)
 	e.atAnchor(st, x, []Val{e.val(st, x.X)}, &ch)
 	// send on a closed channel panics
@@ -339,10 +342,13 @@ func (e *Exec) chanSend(st *State, x *ssa.Send) {
 
 func (e *Exec) chanRecv(st *State, x *ssa.UnOp, b *ssa.BasicBlock, idx int) bool {
 	fr := st.top()
+	e.interfere(st)
 	ch := e.val(st, x.X)
 	e.atAnchor(st, x, nil, &ch)
 	et := x.X.Type().Underlying().(*types.Chan).Elem()
 	v := e.freshVal("recv", et)
+	st.counts["blocking"]++
+	st.events = append(st.events, "chanrecv")
 	if e.isSignalChan(x.X) {
 		// a channel that is never sent on: a receive returns only once it is closed
 		st.assume(e.chanClosed(st, ch.T[0], false, nil))
@@ -398,6 +404,7 @@ func (e *Exec) isSignalChan(v ssa.Value) bool {
 
 func (e *Exec) doSelect(st *State, x *ssa.Select, b *ssa.BasicBlock, idx int) bool {
 	fr := st.top()
+	e.interfere(st)
 	e.atAnchor(st, x, nil, nil)
 	// result tuple: (index int, recvOk bool, recv values...)
 	tt := x.Type().(*types.Tuple)
@@ -616,4 +623,178 @@ func firstField(s string) string {
 		return ""
 	}
 	return f[0]
+}
+
+// ---------------- abstract receiver state (interface-level ghost) ----------------
+
+func (e *Exec) recvState(st *State, which, r string, old bool, oh map[string]string) string {
+	key := "recv#" + which
+	s := arr(SInt, SBool)
+	var a string
+	switch {
+	case old && oh != nil:
+		a = e.arrIn(oh, key, s)
+	case old:
+		a = e.oldArr(st, key, s)
+	default:
+		a = e.curArr(st, key, s)
+	}
+	return app("select", a, r)
+}
+
+// stableInvariants: cross-object facts over monotone state (closed channels,
+// set-once atomics, terminated receivers). They are assumed for objects in
+// scope and re-proved after every call that can make their antecedent true.
+func (e *Exec) stableObjs(st *State) []Val {
+	fr := st.frames[0]
+	var out []Val
+	add := func(v Val, t types.Type) {
+		pt, ok := t.Underlying().(*types.Pointer)
+		if !ok || !isStruct(pt.Elem()) || len(v.T) != 1 {
+			return
+		}
+		if tc := e.typeContract(namedKey(pt.Elem())); tc != nil {
+			for _, c := range tc.Invariants {
+				if c.Lock == "stable" {
+					out = append(out, Val{T: v.T, Typ: t})
+					return
+				}
+			}
+		}
+	}
+	for _, p := range fr.fn.Params {
+		add(fr.params[p.Name()], p.Type())
+	}
+	for _, fv := range fr.fn.FreeVars {
+		if pt, ok := fv.Type().(*types.Pointer); ok {
+			v := e.loadFrom(st, e.derefLoc(st, fr.freeV[fv.Name()], pt.Elem()), false)
+			add(v, pt.Elem())
+		}
+	}
+	return out
+}
+
+func (e *Exec) stableInvs(st *State, assert bool, instr ssa.Instruction, where string) {
+	for _, ov := range e.stableObjs(st) {
+		pt := ov.Typ.Underlying().(*types.Pointer).Elem()
+		owner := namedKey(pt)
+		tc := e.typeContract(owner)
+		for i, c := range tc.Invariants {
+			if c.Lock != "stable" {
+				continue
+			}
+			o := ov
+			ctx := &evalCtx{st: st, self: &o, selfT: pt, scope: map[string]Val{}}
+			g, err := e.evalBool(ctx, c.Expr)
+			if err != nil {
+				e.contractError(&FuncContract{Name: "type " + owner, Line: c.Line}, c, err)
+				continue
+			}
+			g = tImp(tNot(tEq(ov.T[0], "0")), g)
+			if assert {
+				e.oblige(st, "stable", fmt.Sprintf("%s/%s/%s", where, owner, clauseID(c, i)), c.Props, "stable cross-object invariant of "+owner+": "+c.Text, g, instr.Pos())
+			}
+			st.assume(g)
+		}
+	}
+}
+
+// ---------------- interference on monotone shared state ----------------
+
+var monotoneKeys = []string{"chan#closed", "ctx#cancelled", "recv#cancelled", "recv#closed"}
+
+// interfere models the passage of time at a call or blocking operation: other
+// goroutines may have closed channels, cancelled contexts or terminated
+// receivers meanwhile. Positive (stable) facts survive, negative ones do not.
+// Channels whose closing is protected by a lock this path holds, or by a
+// once-token this path won, are exempt.
+func (e *Exec) interfere(st *State) {
+	s := arr(SInt, SBool)
+	changed := false
+	for _, k := range monotoneKeys {
+		_, inHeap := st.heap[k]
+		_, declared := e.decls[e.entryArrName(k)]
+		if !inHeap && !declared {
+			continue // never observed: still arbitrary
+		}
+		old := e.curArr(st, k, s)
+		nw := e.fresh("T:"+k, s)
+		x := e.freshName("x")
+		st.assume(fmt.Sprintf("(forall ((%s Int)) (! (=> (select %s %s) (select %s %s)) :pattern ((select %s %s))))", x, old, x, nw, x, nw, x))
+		st.heap[k] = nw
+		if k == "chan#closed" {
+			for _, c := range e.protectedChans(st) {
+				st.assume(tEq(app("select", nw, c), app("select", old, c)))
+			}
+			// channels created on this path and not yet shared cannot be closed by others
+			for _, f := range st.fresh {
+				if strings.HasPrefix(f, "|new:chan") {
+					st.assume(tEq(app("select", nw, f), app("select", old, f)))
+				}
+			}
+		}
+		changed = true
+	}
+	if changed {
+		e.stableInvs(st, false, nil, "")
+	}
+}
+
+// protectedChans: channel fields (of objects in scope) declared 'closedby X'
+// where X is a mutex this path holds on that object or a token it has won.
+func (e *Exec) protectedChans(st *State) []string {
+	var out []string
+	seen := map[string]bool{}
+	consider := func(owner, obj string) {
+		key := owner + "@" + obj
+		if seen[key] {
+			return
+		}
+		seen[key] = true
+		tc := e.typeContract(owner)
+		t := e.ownerType(owner)
+		if tc == nil || t == nil {
+			return
+		}
+		for _, fname := range sortedKeys(tc.Fields) {
+			d := tc.Fields[fname]
+			i := strings.Index(d.Arg, "closedby ")
+			if i < 0 {
+				continue
+			}
+			prot := firstField(d.Arg[i+len("closedby "):])
+			ok := false
+			for _, h := range st.held {
+				if h.Owner == owner && h.Obj == obj && h.Field == prot && !h.Read {
+					ok = true
+				}
+			}
+			subFn := e.fun(sym("sub."+owner+"."+prot), []string{SInt}, SInt)
+			if st.casWon[app(subFn, obj)] {
+				ok = true
+			}
+			if !ok {
+				continue
+			}
+			loc := &Loc{Key: fieldKey(owner, fname), Typ: types.NewChan(types.SendRecv, types.NewStruct(nil, nil)), Ref: obj}
+			out = append(out, e.loadFrom(st, loc, false).T[0])
+		}
+	}
+	for _, h := range st.held {
+		consider(h.Owner, h.Obj)
+	}
+	for k := range st.casWon {
+		// k = (|sub.Owner.field| obj)
+		if strings.HasPrefix(k, "(|sub.") {
+			rest := k[len("(|sub."):]
+			if i := strings.Index(rest, "| "); i > 0 {
+				of := rest[:i]
+				obj := strings.TrimSuffix(rest[i+2:], ")")
+				if j := strings.LastIndex(of, "."); j > 0 {
+					consider(of[:j], obj)
+				}
+			}
+		}
+	}
+	return out
 }
